@@ -104,6 +104,20 @@ func c13(e *Env) {
 		return true
 	}
 
+	// some runs: no backend is reachable while the clients shake hands (the control connection is
+	// lost and cannot be re-established). The handshake is answered by the proxy itself, so it is
+	// answered all the same: one frame per frame, promptly. (No data requests in these runs.)
+	outage := c.Choose("backend-unreachable-during-handshakes", 4) == 3
+	if outage {
+		for _, n := range w.Nodes {
+			n.Crash()
+		}
+		w.RunUntil(func() bool { return false }, time.Duration(c.Choose("outage-since", 20))*time.Second)
+		if w.Stopped() {
+			return
+		}
+		e.Res.Stats["probe.c13.handshakes_while_no_backend_is_reachable"]++
+	}
 	nConns := 1 + c.Choose("hconns", 3)
 	framesSent := 0
 	for k := 0; k < nConns && !w.Stopped(); k++ {
@@ -144,7 +158,7 @@ func c13(e *Env) {
 			dataTok := ""
 			// (only at a version the backend speaks: v5 below a DSE maximum passes the gate, but no
 			// session can be created for it, and the request legitimately fails)
-			if startVer != 0 && w.Nodes[0].Supports(primitive.ProtocolVersion(startVer)) && c.Choose("data?", 5) == 4 {
+			if !outage && startVer != 0 && w.Nodes[0].Supports(primitive.ProtocolVersion(startVer)) && c.Choose("data?", 5) == 4 {
 				// an ordinary request between the handshake frames: it must be served under
 				// whatever the successful handshake frames so far have established
 				op, vbyte, response = 9, startVer, false
@@ -399,7 +413,7 @@ func c13(e *Env) {
 			if len(h.Unsolicited) > 0 {
 				return
 			}
-			if c.Choose("canary?", 3) == 0 && !checkCanary() {
+			if !outage && c.Choose("canary?", 3) == 0 && !checkCanary() {
 				return
 			}
 		}
@@ -407,7 +421,7 @@ func c13(e *Env) {
 			h.Disconnect()
 		}
 	}
-	if !checkCanary() {
+	if !outage && !checkCanary() {
 		return
 	}
 	w.Quiesce()
